@@ -123,6 +123,7 @@ class Exec:
             self.loop_ord[id(n)] = i + 1
         self.old = None
         self.spec_mode = False
+        self.loop_exit = {}
         self.obl_seq = itertools.count(1)
         self.reached = set()
 
@@ -154,7 +155,7 @@ class Exec:
                 st.heap[(o.t, fname)] = self.fresh(fkind, '%s.%s' % (hint, fname))
 
     def oblige(self, st, kind, node, goal, text):
-        """Record an obligation (split per top-level conjunct)."""
+        """Record an obligation, one per top-level conjunct of the goal."""
         if isinstance(goal, bool):
             if goal:
                 return
@@ -1090,6 +1091,10 @@ class Exec:
             if pkind != OPAQUE and not (v.kind == CONST and v.t is None):
                 v = self.lift(v, pkind) if not (isinstance(pkind, tuple) and pkind[0] == 'obj') else v
             frame.env[pname] = v
+        for gname, gkind in c.ghosts.items():
+            if gname not in st.env:
+                raise OutOfSubset('ghost parameter %s of %s cannot be bound from the caller scope' % (gname, c.qualname))
+            frame.env[gname] = self.lift(st.env[gname], gkind)
         save_spec, save_old = self.spec_mode, self.old
         self.spec_mode = True
         try:
@@ -1450,29 +1455,39 @@ class Exec:
             raise OutOfSubset('for-else')
         ordn, spec = self.loop_spec(node)
         kname = spec.index or ('_k%d' % ordn)
-        # iteration count and element binder are evaluated in the pre-state: the iterable is evaluated once
         k0 = z3.Int('%s!%d' % (kname, next(self.counter)))
         pre = st
-        pre.env[kname] = SVal('int', z3.IntVal(0))
-        n, _ = self.iter_source(node.iter, node.target, z3.IntVal(0), pre)
-        n_term = n
+        # the iterable is evaluated once, in the pre-state
+        frozen = pre.fork()
+        n_term, _ = self.iter_source(node.iter, node.target, z3.IntVal(0), frozen)
+        is_range = isinstance(node.iter, ast.Call) and isinstance(node.iter.func, ast.Name) \
+            and node.iter.func.id == 'range'
+        targets = [n_.id for n_ in ast.walk(node.target) if isinstance(n_, ast.Name)]
+
+        def at_head(s, kterm):
+            "bind the ghost index; for range loops the loop variable denotes the next value"
+            s.env[kname] = SVal('int', kterm)
+            for tname in targets:
+                s.env.pop(tname, None)
+            if is_range:
+                _, b = self.iter_source(node.iter, node.target, kterm, frozen.fork())
+                b(s)
+
         # 1. establish
+        at_head(pre, z3.IntVal(0))
         for g, txt in self.invariants(spec, pre, node, 'establish'):
             self.oblige(pre, 'inv-init', node, g, 'loop %d invariant holds on entry: %s' % (ordn, txt))
         # 2. arbitrary iteration
         head = pre.fork()
-        targets = [n_.id for n_ in ast.walk(node.target) if isinstance(n_, ast.Name)]
         self.havoc_loop(node.body, head, extra=targets)
-        for tname in targets:
-            head.env.pop(tname, None)
-        head.env[kname] = SVal('int', k0)
+        at_head(head, k0)
         head.pc.append(z3.And(0 <= k0, k0 <= n_term))
         for g, txt in self.invariants(spec, head, node, 'assume'):
             head.pc.append(g)
         after = head.fork()
         body_st = head.fork()
         body_st.pc.append(k0 < n_term)
-        _, binder = self.iter_source(node.iter, node.target, k0, pre.fork())
+        _, binder = self.iter_source(node.iter, node.target, k0, frozen.fork())
         binder(body_st)
         src = getattr(self, '_last_iter_seq', None)
         if src is not None:
@@ -1484,9 +1499,7 @@ class Exec:
         for tag, s2, payload in self.run_block(node.body, body_st):
             if tag in ('next', 'continue'):
                 self.run_finally(spec, s2, head_snapshot, node)
-                s2.env[kname] = SVal('int', k0 + 1)
-                for tname in targets:
-                    s2.env.pop(tname, None)
+                at_head(s2, k0 + 1)
                 for g, txt in self.invariants(spec, s2, node, 'preserve'):
                     self.oblige(s2, 'inv-keep', node, g, 'loop %d invariant preserved: %s' % (ordn, txt))
             elif tag == 'break':
@@ -1497,6 +1510,9 @@ class Exec:
         after.pc.append(k0 == n_term)
         for tname in targets:
             after.env.pop(tname, None)
+        snap = after.fork()
+        snap.heap = dict(after.heap)
+        self.loop_exit[ordn] = snap
         outs.append(('next', after, None))
         return outs
 
@@ -1603,8 +1619,17 @@ class Exec:
                 outs.append(('next', s2, None))
             else:
                 outs.append((tag, s2, payload))
+        snap = after.fork()
+        snap.heap = dict(after.heap)
+        self.loop_exit[ordn] = snap
         outs.append(('next', after, None))
         return outs
+
+    def call_after_loop(self, node, st):
+        ordn = ast.literal_eval(node.args[0])
+        if ordn not in self.loop_exit:
+            raise OutOfSubset('after_loop(%d): loop not executed on this path' % ordn)
+        return self.ev(node.args[1], self.loop_exit[ordn].fork())
 
     # ---------------------------------------------------------------- function level
     def alias_check(self):
@@ -1653,6 +1678,8 @@ class Exec:
                 st.env[pname] = v
                 if isinstance(pkind, tuple) and pkind[0] == 'obj':
                     self.init_fields(v, st)
+        for gname, gkind in c.ghosts.items():
+            st.env[gname] = self.fresh(gkind, gname)
 
     def verify(self):
         """Generate all obligations for the function.  Returns (obligations, info)."""
@@ -1700,6 +1727,13 @@ class Exec:
         try:
             for h, txt in c.hints:
                 self.assume_hint(h, txt, st)
+            for what, e, txt in c.finally_:
+                if what == 'check':
+                    g = self.zbool(self.truth(self.ev(e, st)))
+                    self.oblige(st, 'ghost-check', ast.copy_location(ast.Pass(), self.fn), g, 'exit check: ' + txt)
+                    self.assume(st, g)
+                else:
+                    self.assume_hint(e, txt, st)
             for e, txt in c.ensures:
                 g = self.zbool(self.truth(self.ev(e, st)))
                 self.oblige(st, 'post', ast.copy_location(ast.Pass(), self.fn), g, 'postcondition: ' + txt)
